@@ -33,7 +33,7 @@ import (
 )
 
 func TestMain(m *testing.M) {
-	vstat.Rule("Raw TCP backend script: any status 200-999, 0-8 end-to-end headers (repeated names), body 0..1 MiB with Content-Length or chunked framing with generated chunk sizes and flush points; fault = one of {connection refused, close before any byte, RST before any byte, partial head then close, garbage head, status code below 100, full head + partial body then close/RST (Content-Length and chunked), never answer (transport ResponseHeaderTimeout), client cancels while the backend holds}. Proxy = StateListener(forward.New(..)), driven in-process (with the server context key present so that an aborted body copy panics as under a real server) and behind httptest.Server with a raw client. The fault x method table is enumerated completely in every run on top of the generated cases. Oracle: no fault => client status, end-to-end header values and body bytes equal the script's; refused/closed/reset before any byte => 502; header timeout => 504; cancellation => 499; partial/garbage head => 500 or 502; abort during body copy => truncated exchange, proxy survives and serves the next request; in all cases the listener saw exactly [connected, disconnected] with the same URL and the exchange terminated. Non-trivial: fault after the response head, or a chunked body > 32 KiB with >= 2 flushes, or cancellation. Later additions: header values with tab, UTF-8 and Latin-1 bytes; 0-2 '103 Early Hints' responses before the final one; the forwarder behind trace or a never-tripping breaker (response-writer wrapper in between); 17-40 overlapping exchanges through one forwarder; for the RST-during-body fault the proxy's own 502/500 page is accepted (a reset destroys unread bytes of the head). TestC16_Upgrade: backend answers 101 + greeting and holds; forwarder bare or behind trace/cbreaker/rebalancer/statelistener on a recording writer that can be hijacked; the hijacked connection must start with the backend's 101 head (X-Backend: yes) followed by the greeting; zero WriteHeader calls, flushes and body bytes on the ordinary path.")
+	vstat.Rule("Raw TCP backend script: any status 200-999, 0-8 end-to-end headers (repeated names), body 0..1 MiB with Content-Length or chunked framing with generated chunk sizes and flush points; fault = one of {connection refused, close before any byte, RST before any byte, partial head then close, garbage head, status code below 100, full head + partial body then close/RST (Content-Length and chunked), never answer (transport ResponseHeaderTimeout), client cancels while the backend holds, client gone before the request reaches the proxy}. Proxy = StateListener(forward.New(..)), driven in-process (with the server context key present so that an aborted body copy panics as under a real server) and behind httptest.Server with a raw client. The fault x method table is enumerated completely in every run on top of the generated cases. Oracle: no fault => client status, end-to-end header values and body bytes equal the script's; refused/closed/reset before any byte => 502; header timeout => 504; cancellation => 499; partial/garbage head => 500 or 502; abort during body copy => truncated exchange, proxy survives and serves the next request; in all cases the listener saw exactly [connected, disconnected] with the same URL and the exchange terminated. Non-trivial: fault after the response head, or a chunked body > 32 KiB with >= 2 flushes, or cancellation. Later additions: header values with tab, UTF-8 and Latin-1 bytes; 0-2 '103 Early Hints' responses before the final one; the forwarder behind trace or a never-tripping breaker (response-writer wrapper in between); 17-40 overlapping exchanges through one forwarder; for the RST-during-body fault the proxy's own 502/500 page is accepted (a reset destroys unread bytes of the head). TestC16_Upgrade: backend answers 101 + greeting and holds; forwarder bare or behind trace/cbreaker/rebalancer/statelistener on a recording writer that can be hijacked; the hijacked connection must start with the backend's 101 head (X-Backend: yes) followed by the greeting; zero WriteHeader calls, flushes and body bytes on the ordinary path.")
 	log.SetOutput(io.Discard) // httputil.ReverseProxy logs every aborted copy
 	vstat.Main(m.Run)
 }
@@ -94,7 +94,7 @@ type respScript struct {
 // exchangeStalled: an exchange that never terminated was seen in this process.
 var exchangeStalled atomic.Bool
 
-var faults = []string{"refused", "dial-error-without-address", "name-not-resolved", "close-before", "rst-before", "partial-head", "garbage-head", "invalid-status", "body-close", "body-rst", "never-answer", "client-cancel", "tls-handshake-stall"}
+var faults = []string{"refused", "dial-error-without-address", "name-not-resolved", "close-before", "rst-before", "partial-head", "garbage-head", "invalid-status", "invalid-status-endless-body", "body-close", "body-rst", "never-answer", "client-cancel", "client-gone-on-arrival", "tls-handshake-stall"}
 
 func genResp(t *rapid.T) *respScript {
 	s := &respScript{}
@@ -188,7 +188,9 @@ func (s *respScript) steps() []sim.Step {
 		return []sim.Step{{Write: []byte("\x00\x01garbage no http here\r\n\r\n")}, {Close: true}}
 	case "invalid-status": // a status line net/http's client accepts but no server can relay
 		return []sim.Step{{Write: []byte(fmt.Sprintf("HTTP/1.1 %03d Odd\r\nContent-Length: 2\r\n\r\nno", s.status%100))}, {Close: true}}
-	case "never-answer", "client-cancel", "tls-handshake-stall":
+	case "invalid-status-endless-body": // the same unusable status line, followed by a body that never ends (the backend keeps the connection)
+		return []sim.Step{{Write: []byte(fmt.Sprintf("HTTP/1.1 %03d Odd\r\nContent-Length: 1000000\r\n\r\nstreaming...", s.status%100))}, {Hold: true}, {Close: true}}
+	case "never-answer", "client-cancel", "client-gone-on-arrival", "tls-handshake-stall":
 		return []sim.Step{{Hold: true}, {Close: true}}
 	}
 	var out []sim.Step
@@ -408,6 +410,9 @@ func exchange(fatalf func(string, ...any), s *respScript, method string) {
 	}
 	rec := sim.NewRecorder()
 	done := make(chan any, 1)
+	if s.fault == "client-gone-on-arrival" {
+		cancel() // the client went away while the request was still on its way through the layers in front
+	}
 	go func() {
 		defer func() { done <- recover() }()
 		h.ServeHTTP(rec, req)
@@ -495,11 +500,11 @@ func exchange(fatalf func(string, ...any), s *respScript, method string) {
 		if rec.Status() != http.StatusGatewayTimeout {
 			bad("backend response-header timeout: client got %d, want 504", rec.Status())
 		}
-	case "client-cancel":
+	case "client-cancel", "client-gone-on-arrival":
 		if rec.Status() != 499 {
 			bad("client went away: recorded status %d, want 499", rec.Status())
 		}
-	case "partial-head", "garbage-head", "invalid-status":
+	case "partial-head", "garbage-head", "invalid-status", "invalid-status-endless-body":
 		if rec.Status() != 500 && rec.Status() != 502 {
 			bad("backend sent an unusable response head: client got %d, want 502 or 500", rec.Status())
 		}
@@ -535,7 +540,7 @@ func commonPrefix(a, b []byte) int {
 func record(s *respScript, method, how string) {
 	afterHead := s.fault == "body-close" || s.fault == "body-rst"
 	bigChunked := s.fault == "" && s.chunked && len(s.body) > 32<<10 && s.flushes >= 2
-	nt := afterHead || bigChunked || s.fault == "client-cancel"
+	nt := afterHead || bigChunked || s.fault == "client-cancel" || s.fault == "client-gone-on-arrival"
 	cl := []string{how, "fault=" + s.fault}
 	if bigChunked {
 		cl = append(cl, "chunked>32KiB-with-flushes")
